@@ -210,7 +210,7 @@ TraceInit ==
   /\ l = 1
   /\ devs = 0 /\ rundevs = 0
   /\ TLCSet(1, 1) /\ TLCSet(2, 0)
-  /\ env = [prog |-> <<>>, base |-> <<>>, helpers |-> {}, fsz |-> NoFszT, budget |-> 0, dev |-> {}, c |-> [vm |-> "none", fam |-> ""]]
+  /\ env = [prog |-> <<>>, base |-> <<>>, helpers |-> {}, fsz |-> NoFszT, budget |-> 0, dev |-> {}, c |-> [vm |-> "none", fam |-> ""], entries |-> {}]
   /\ mem = <<>> /\ pc = 0 /\ reg = [r \in 0..10 |-> Zero] /\ rt = [r \in 0..10 |-> "u"]
   /\ sw = {} /\ frames = <<>> /\ curFn = 0
   /\ status = [k |-> "idle", class |-> "", val |-> Zero]
